@@ -568,6 +568,28 @@ pub fn gen_sub(prop: &str, tier: &str, seed: u64) -> Out {
                 o.push(format!("t:tof64 {}", hex(&dv)));
                 o.push(format!("t:caststr {} -", hex(&dv)));
             }
+            // member lookup ignoring ASCII case, at the edges of the letter ranges: for every ASCII byte b the name
+            // `a b 0` against the key `a (b xor 0x20) 0` — equal ignoring case exactly when b is a letter (`@ [ \ ] ^ _`
+            // and the backtick, `{ | } ~` and DEL are one bit away from letters' neighbours), both flags, and with an exact
+            // match present as well
+            for b in 0u8..0x80 {
+                let (nb, kb) = (b, b ^ 0x20);
+                let name = vec![b'a', nb, b'0'];
+                let key = String::from_utf8(vec![b'a', kb, b'0']).unwrap();
+                for with_exact in [false, true] {
+                    let mut m = std::collections::BTreeMap::new();
+                    m.insert(key.clone(), Value::Number(Number::UInt64(1)));
+                    m.insert("k".to_string(), Value::Number(Number::UInt64(2)));
+                    if with_exact { m.insert(String::from_utf8(name.clone()).unwrap(), Value::Number(Number::UInt64(3))); }
+                    let v = Value::Object(m);
+                    let d = hex(&v.to_vec());
+                    for flag in [0, 1] {
+                        o.push(format!("spec:getname {} {} {}", d, hex(&name), flag));
+                        o.push(format!("getname {} {} {}", d, hex(&name), flag));
+                    }
+                    o.push(format!("tj {} getname {} {} 1", b, d, hex(&name)));
+                }
+            }
             // scalar roots of every kind through every cast (the generated documents are mostly containers)
             for _ in 0..scale(tier, 300, 6000) {
                 let v = gen_scalar(&mut r, &c);
@@ -1169,6 +1191,26 @@ pub fn gen_sub(prop: &str, tier: &str, seed: u64) -> Out {
                     o.push(format!("getpathfirst {} {} {}", pre, d, ph));
                     o.push(format!("getpatharray {} {} {}", pre, d, ph));
                     o.push(format!("pathmatch {} {}", d, ph));
+                }
+            }
+            // chained filters (a candidate that passes the first filter and fails a later one, before one that passes
+            // all), filters reading the root, and one Selector reused over several equally long documents
+            {
+                let docs = ["[{\"a\":1,\"b\":1},{\"a\":1,\"b\":2}]", "[{\"a\":1,\"b\":2},{\"a\":1,\"b\":1}]", "[{\"a\":2,\"b\":2},{\"a\":1,\"b\":1},{\"a\":1,\"b\":2}]",
+                    "{\"x\":[{\"a\":1,\"b\":1},{\"a\":1,\"b\":2}],\"lim\":2}", "{\"x\":[{\"a\":1,\"b\":1},{\"a\":1,\"b\":2}],\"lim\":1}", "[1,2,3,4]", "[4,3,2,1]", "{\"items\":[1,5,9],\"limit\":6}", "{\"items\":[1,5,9],\"limit\":2}", "{\"items\":[1,5,9],\"limit\":0}"];
+                let paths = ["$[*]?(@.a == 1)?(@.b == 2)", "$[*]?(@.a == 1)?(@.b == 1)", "$[*]?(@.a == 1)?(@.b == 3)", "$.x[*]?(@.a == 1)?(@.b == 2)", "$.x[*]?(@.a == 1)?(@.b == $.lim)", "$[*]?(@ > 1)?(@ > 2)?(@ > 3)",
+                    "$[*]?(@ < 4)?(@ < 3)?(@ < 2)", "$[*]?(@.a == 1).b?(@ == 2)", "$[*]?(exists(@.a))?(@.b == 2)", "$[*]?(@.a == 1 && @.b == 2)", "$.items[*]?(@ < $.limit)", "$.items[*]?(@ > $.limit)?(@ < 9)", "$.items[0] < $.limit"];
+                let enc: Vec<String> = docs.iter().map(|t| hex(&jsonb::parse_value(t.as_bytes()).unwrap().to_vec())).collect();
+                for path in paths {
+                    let ph = hex(path.as_bytes());
+                    for d in &enc {
+                        if prop == "C15" { o.push(format!("modes {} {}", d, ph)); }
+                        for m in ["all", "first", "array", "mixed"] { o.push(format!("select {} - {} {}", m, d, ph)); o.push(format!("spec:select {} - {} {}", m, d, ph)); }
+                        o.push(format!("pexists {} {}", d, ph)); o.push(format!("spec:pexists {} {}", d, ph));
+                        o.push(format!("pathexists {} {}", d, ph));
+                        o.push(format!("getpathfirst - {} {}", d, ph));
+                    }
+                    for m in ["all", "first", "array", "mixed"] { o.push(format!("selreuse {} {} {}", m, ph, enc.join(" "))); }
                 }
             }
             // scalar roots, empty containers, the repaired cases
